@@ -201,6 +201,11 @@ func classifyCal(v ssa.Value) calComp {
 	return calComp{kind: "keep", comp: comp, src: src}
 }
 
+// dateArg: argument i of the calendar call d found in root; when d is written in a helper root enters, the value root passes for it.
+func dateArg(root *ssa.Function, d *ssa.Call, i int) ssa.Value {
+	return eng.UpParamVia(root, eng.Site{Fn: d.Parent(), Instr: d}, d.Common().Args[i])
+}
+
 // dateCalls: the calls of the package function time.Date in fn.
 func dateCalls(p *eng.Prog, fn *ssa.Function) []*ssa.Call {
 	var out []*ssa.Call
@@ -273,7 +278,7 @@ func calendarSkeleton(c *eng.Ctx) {
 			shape := true
 			var segDesc []string
 			for i := 0; i < 3; i++ {
-				cc := classifyCal(sd[0].Common().Args[i])
+				cc := classifyCal(dateArg(seg, sd[0], i))
 				segDesc = append(segDesc, cc.String())
 				switch {
 				case cc.kind == "keep" && cc.comp == i && cc.src == "timestamp" && k == i:
@@ -362,7 +367,7 @@ func calendarSkeleton(c *eng.Ctx) {
 				good := true
 				var desc []string
 				for i := 0; i < 3; i++ {
-					cc := classifyCal(ds[0].Common().Args[i])
+					cc := classifyCal(dateArg(which.f, ds[0], i))
 					desc = append(desc, cc.String())
 					switch {
 					case i < k:
@@ -494,7 +499,7 @@ func segmentNameRoundTrip(c *eng.Ctx) {
 			k := 0
 			if ds := dateCalls(p, seg); len(ds) == 1 {
 				for i := 0; i < 3; i++ {
-					if cc := classifyCal(ds[0].Common().Args[i]); cc.kind == "keep" {
+					if cc := classifyCal(dateArg(seg, ds[0], i)); cc.kind == "keep" {
 						k++
 					}
 				}
